@@ -108,6 +108,10 @@ def c06(tier, seed):
                 jobs.append(J('vh_c06_strings', [n, m, l, 3], 'replace |s|=%d |p|=%d |r|=%d' % (n, m, l), cost=3 ** (n + m)))
                 jobs.append(J('vh_c06_strings', [n, m, l, 4], 'replace_all |s|=%d |p|=%d |r|=%d' % (n, m, l), cost=4 ** (n + m)))
         jobs.append(J('vh_c06_strings', [n, 0, 0, 1], 'substr |s|=%d' % n, cost=3 ** n))
+    # pattern and replacement of equal length >= 2 (in-place replacement strategies)
+    for n, m in ([(3, 2), (4, 2)] if tier == 'quick' else [(3, 2), (4, 2), (5, 2), (5, 3)]):
+        jobs.append(J('vh_c06_strings', [n, m, m, 3], 'replace |s|=%d |p|=|r|=%d' % (n, m), cost=3 ** (n + m)))
+        jobs.append(J('vh_c06_strings', [n, m, m, 4], 'replace_all |s|=%d |p|=|r|=%d' % (n, m), cost=4 ** (n + m)))
     # longer subject / pattern combinations for the search loop (self-overlapping patterns need |p| >= 3, |s| >= 4)
     extra = [(4, 3), (4, 2), (5, 3)] if tier == 'quick' else [(5, 3), (5, 4), (6, 3)]
     for n, m in extra:
@@ -128,6 +132,9 @@ def c09(tier, seed):
         for b in range(0, L + 1):
             for c in range(0, L + 1):
                 jobs.append(J('vh_c09_order', [a, b, c], 'order |a|=%d |b|=%d |c|=%d' % (a, b, c), cost=2 ** (a + b + c)))
+    # long common prefixes (block-wise comparison loops): two strings, third empty
+    for a, b in ([(9, 9), (8, 10), (17, 17)] if tier == 'quick' else [(9, 9), (8, 10), (16, 16), (17, 17), (25, 24)]):
+        jobs.append(J('vh_c09_order', [a, b, 0], 'order |a|=%d |b|=%d |c|=0 (long common prefixes)' % (a, b), cost=a * b))
     for prof in ('dev', 'rel'):
         for n in range(0, 12):
             jobs.append(J('vh_c09_to_int', [n], 'to_int length %d (%s profile)' % (n, prof), profile=prof, cost=2 ** n))
@@ -148,6 +155,12 @@ def c09(tier, seed):
 
 def c17(tier, seed):
     jobs = [J('vh_c17_constructors', [g], 'group %d' % g) for g in range(0, 13)]
+    # the parser must produce only SMT-LIB characters also when escape attempts follow each other (the C08 parse harness
+    # asserts is_good() on its result; the templates below are shared with C08)
+    B, U, LB, RB = 92, 117, 123, 125
+    for name, t in [('\\u12 \\u 4 symbolic', [B, U, 49, 50, B, U, 0, 0, 0, 0]), ('\\u{ 2 symbolic \\u 3 symbolic f', [B, U, LB, 0, 0, B, U, 0, 0, 0, 102]),
+                    ('\\u{2 + 4 symbolic + }', [B, U, LB, 50, 0, 0, 0, 0, RB])]:
+        jobs.append(J('vh_c08_parse', [len(t)] + t, 'parse template ' + name, cost=6 ** sum(1 for x in t if x == 0)))
     return {'jobs': jobs,
             'bounds': 'From<u32>/From<&[u32]>/From<Vec<u32>>/From<&[u32;3]> on symbolic u32 (full range); From<char>/From<&str>/From<String>/'
                       'parse_smt_literal (plain text and after each unfinished escape prefix \\, \\u, \\u1, \\u12, \\u123, \\u{, \\u{1, \\u{12345) on a symbolic Rust char over all scalar values (U+0000..U+10FFFF without surrogates); is_good of '
@@ -240,7 +253,7 @@ def c13(tier, seed):
 
 def c14(tier, seed):
     jobs = built_jobs(tier, [0, 1, 4, 5])
-    nm = [(1, 1), (2, 2), (3, 2), (2, 3), (3, 3)] if tier == 'quick' else [(1, 1), (2, 2), (3, 2), (2, 3), (3, 3), (4, 3), (3, 4), (4, 4)]
+    nm = [(1, 1), (2, 2), (3, 2), (2, 3), (3, 3)] if tier == 'quick' else [(1, 1), (2, 2), (3, 2), (2, 3), (3, 3), (4, 3), (3, 4)]
     for n, m in nm:
         for d in (0, 1):
             jobs.append(J('vh_c14_table', [n, m, d], 'compact table %dx%d %s' % (n, m, 'with defaults' if d else 'all cells given'), cost=2 ** (n * m * d)))
